@@ -1008,7 +1008,8 @@ class AnsiString:
 
         if isinstance(value, AnsiString):
             incoming_str = value._s
-            incoming_fmts = value._fmts
+            # Work on a copy of the incoming settings so that value is never modified (value may even be self)
+            incoming_fmts = {k: _AnsiSettingPoint(list(v.add), list(v.rem)) for k, v in value._fmts.items()}
         else:
             raise TypeError(f'value is invalid type: {type(value)}')
 
